@@ -141,8 +141,9 @@ Record mstate := {
   mem : N -> N;                          (* bytes *)
   next : N;                              (* bump pointer *)
   allocs : list (N * N * N);             (* ledger: (ptr, size, align), most recent first *)
+  presets : list N;                      (* addresses the embedder's realloc will return next (else: bump) *)
 }.
-Definition mstate0 (base : N) : mstate := {| mem := fun _ => 0; next := base; allocs := [] |}.
+Definition mstate0 (base : N) : mstate := {| mem := fun _ => 0; next := base; allocs := []; presets := [] |}.
 
 Definition pow256 (n : nat) : N := N.pow 256 (N.of_nat n).
 
@@ -156,13 +157,18 @@ Definition store_le (m : N -> N) (a : N) (n : nat) (x : N) : N -> N :=
   fun b => if (a <=? b) && (b <? a + N.of_nat n) then (x / pow256 (N.to_nat (b - a))) mod 256 else m b.
 
 Definition st_store (st : mstate) (a : N) (n : nat) (x : N) : mstate :=
-  {| mem := store_le (mem st) a n x; next := next st; allocs := allocs st |}.
+  {| mem := store_le (mem st) a n x; next := next st; allocs := allocs st; presets := presets st |}.
 
 (** realloc(0, 0, align, size): zero-sized requests are not entered in the ledger. *)
 Definition st_alloc (st : mstate) (size align : N) : N * mstate :=
-  let p := align_to (next st) align in
-  (p, {| mem := mem st; next := p + size;
-         allocs := if size =? 0 then allocs st else (p, size, align) :: allocs st |}).
+  match (if size =? 0 then [] else presets st) with
+  | p :: rest =>
+      (p, {| mem := mem st; next := next st; allocs := (p, size, align) :: allocs st; presets := rest |})
+  | [] =>
+      let p := align_to (next st) align in
+      (p, {| mem := mem st; next := p + size;
+             allocs := if size =? 0 then allocs st else (p, size, align) :: allocs st; presets := presets st |})
+  end.
 
 Fixpoint store_bytes_at (m : N -> N) (a : N) (bs : list N) : N -> N :=
   match bs with
@@ -307,7 +313,7 @@ Section store.
     match t, v with
     | TString, VStr bs =>
         let '(p, st1) := st_alloc st (N.of_nat (length bs)) 1 in
-        let st2 := {| mem := store_bytes_at (mem st1) p bs; next := next st1; allocs := allocs st1 |} in
+        let st2 := {| mem := store_bytes_at (mem st1) p bs; next := next st1; allocs := allocs st1; presets := presets st1 |} in
         Some (store_ptr_len st2 a p (N.of_nat (length bs)))
     | TList et, VList vs => store_list et (store et) vs a st
     | TMap k e, VList vs => store_list (map_entry k e) (store_entry (store k) (store e) (entry_value_offset k e)) vs a st
@@ -396,7 +402,7 @@ Section store.
     | TString, VStr bs =>
         let '(p, st1) := st_alloc st (N.of_nat (length bs)) 1 in
         Some ([(ptr_ct pw, p); (ptr_ct pw, N.of_nat (length bs))],
-              {| mem := store_bytes_at (mem st1) p bs; next := next st1; allocs := allocs st1 |})
+              {| mem := store_bytes_at (mem st1) p bs; next := next st1; allocs := allocs st1; presets := presets st1 |})
     | TList et, VList vs => lower_list et (store et) vs
     | TMap k e, VList vs => lower_list (map_entry k e) (store_entry (store k) (store e) (entry_value_offset k e)) vs
     | TFixed et n, VList vs => if N.of_nat (length vs) =? n then lower_same (lower_flat et) vs st else None
